@@ -31,6 +31,11 @@ CLAIMED = {
             "Generated-input search over images with parallel work and over pool sizes / repetition / caller concurrency; real rayon interleavings are sampled, not enumerated (stated).",
             "Trusted: std threads and rayon provide the interleavings; a race is only caught when it changes samples or outcomes in some run.",
             "DESIGN.md §4 C07"),
+    "C08": ("exploration",
+            "fault-injection PBT: for generated multi-frame images, fail the k-th (and every later) tracked allocation for every / sampled k via the cfg(jxl_oxide_verif) AllocTracker switch, then run a generated program of later calls (render same/other keyframes, region changes, lift / re-arm the fault); worker-process isolation with deadline; every Ok render bit-identical to a never-failed decode",
+            "Generated-input search over images with reference frames, blending and patches, over all (small images: exhaustive) or sampled fault points, and over post-failure call sequences. A call that never returns is a confirmed deadline overrun of the isolated worker; any later successful render must equal the same keyframe/region of a fresh decode that never failed, bit for bit.",
+            "Trusted: the allocation-fault hook (hooks_commits.txt, 031567c) fails exactly the allocations registered with the tracker. Deadlines (60 s per case, 600 s alone) decide 'never returns'; an unconfirmed overrun is reported as inconclusive (exit 2), never as a violation.",
+            "DESIGN.md §4 C08"),
     "C09": ("exploration",
             "metamorphic PBT: generated valid files x generated chunkings (structure-boundary biased) fed through the incremental API vs whole-buffer read; field-wise and sample-wise equality",
             "Generated-input search over valid files (bare/container, split jxlp, aux boxes, multi-section frames, permuted TOCs) and over chunkings biased to structure boundaries; the incremental decoder must report exactly what the one-shot decoder reports, including bit-identical samples.",
